@@ -340,6 +340,12 @@ Section Maxi.
   Definition check_threshold (m : matrix) (t : T) (sorted : list coord) : bool :=
     coords_eqb sorted (threshold_generic m t).
 
+  (* the property checker used by the driver on the three answers of one entry point
+     (maximum, arg-maximum, threshold list sorted in row-major order by the caller) *)
+  Definition check_C07 (m : matrix) (t : T) (omax : option T) (oam : option coord)
+             (sorted : list coord) : bool :=
+    check_max m omax && check_argmax m oam && check_threshold m t sorted.
+
   (* every cell whose column-major index is in V .. n-1 satisfies [is_ninf] *)
   Definition check_padding (is_ninf : T -> bool) (m : matrix) (V n : nat) : bool :=
     forallb (fun i => match index_usize m i with Ok x => is_ninf x | _ => false end) (seq V (n - V)).
